@@ -9,7 +9,7 @@
    comparison of the RFC functions (instantiated with Gallina SHA-2/HMAC/HKDF) with the
    library's outputs.  Statements only; each is closed by [exact lemma]. *)
 From Coq Require Import NArith List.
-From MlsV Require Import Res Codec Hkdf KeyScheduleRFC KeyScheduleCode TreeMathGen TreeMathProofs KeyScheduleProofs PskIdeal ResumeGen ResumeGenProofs CodecTypes KsCases TranscriptGen TranscriptGenProofs.
+From MlsV Require Import Res Codec Hkdf KeyScheduleRFC KeyScheduleCode TreeMathGen TreeMathProofs KeyScheduleProofs PskIdeal ResumeGen ResumeGenProofs CodecTypes KsCases TranscriptGen TranscriptGenProofs KeySchedGen KeySchedGenProofs.
 Import ListNotations.
 Local Open Scope N_scope.
 
@@ -91,6 +91,25 @@ Theorem C13_compared_transcript_input_is_the_translated_one : forall ac inp tag,
     inp = gen_confirmed_input a b c.
 Proof. exact cth_input_is_translated. Qed.
 
+(* the KDF dataflow TRANSLATED from group/key_schedule.rs and psk/secret.rs on every run (every let of
+   from_key_schedule / from_joiner / from_epoch_secret with its label per field, get_pre_epoch_secret,
+   get_welcome_secret, export_secret, the body of the loop of PskSecret::calculate: argument order of
+   kdf_extract, labels, contexts, lengths) is the code-shaped model that the theorems above prove equal to
+   the RFC formulas *)
+Theorem C13_translated_key_schedule_is_the_code_model : forall H last_init commit ctx psk joiner input e l c n,
+  gen_from_key_schedule H last_init commit ctx psk = from_key_schedule H last_init commit ctx psk /\
+  gen_from_joiner H joiner ctx psk = from_joiner H joiner ctx psk /\
+  gen_get_welcome_secret H joiner psk = get_welcome_secret H joiner psk /\
+  gen_export_secret H e l c n = export_secret H e l c n /\
+  gen_psk_calculate H input = psk_calculate H input.
+Proof. exact translated_key_schedule. Qed.
+
+Theorem C13_translated_secret_tree_dataflow_is_the_code_model : forall H s leaf_sec hs nk nn r,
+  gen_consume_children H s = (kdf_expand_with_label H s L_tree C_left None, kdf_expand_with_label H s L_tree C_right None) /\
+  gen_ratchet_new H leaf_sec hs = ratchet_new H leaf_sec hs /\
+  gen_next_message_key H nk nn r = next_message_key H nk nn r.
+Proof. exact translated_secret_tree. Qed.
+
 Print Assumptions C13_label_encoding.
 Print Assumptions C13_key_schedule.
 Print Assumptions C13_welcome_secret.
@@ -103,3 +122,5 @@ Print Assumptions C13_translated_resolver_keeps_the_order.
 Print Assumptions C13_translated_confirmed_transcript_input.
 Print Assumptions C13_translated_interim_transcript_input.
 Print Assumptions C13_compared_transcript_input_is_the_translated_one.
+Print Assumptions C13_translated_key_schedule_is_the_code_model.
+Print Assumptions C13_translated_secret_tree_dataflow_is_the_code_model.
